@@ -30,6 +30,17 @@ let parse_case (line : string) : case =
   (* strip the optional 8th field of every submission *)
   let faults = ref [] in
   let toks = Stdlib.List.filter (fun t -> t <> "") (split_on ';' hist) in
+  (* L<first>,<prev>,<count>,<bits> = a run of headers, see harness/zz_verif/c11.go *)
+  let toks = Stdlib.List.concat_map (fun t ->
+      if starts_with "L" t then
+        match Stdlib.List.map int_of_string (split_on ',' (drop 1 t)) with
+        | [first; prev; count; bits] ->
+          Stdlib.List.init count (fun i ->
+              let id = first + i in
+              let pr = if i = 0 then prev else id - 1 in
+              Printf.sprintf "%d,%d,%d,1,%d,%d,%d" id pr bits (id + 100000) (1600000000 + i) i)
+        | _ -> failwith ("bad run token " ^ t)
+      else [t]) toks in
   let toks' = Stdlib.List.map (fun t ->
       if starts_with "g=" t || starts_with "f=" t then t
       else match split_on ',' t with
@@ -38,7 +49,10 @@ let parse_case (line : string) : case =
   let h = parse_history (Stdlib.String.concat ";" toks') in
   { chans = !chans; n = !n; h; subs_f = Stdlib.List.combine h.subs (Stdlib.List.rev !faults) }
 
-let beh_of = function "ok" -> Notify.BOk | "err" -> Notify.BErr | "slow" -> Notify.BSlow | b -> failwith ("bad behaviour " ^ b)
+(* hang = a slow channel that is never released; late = ok (the target answers 200, only later) *)
+let beh_of = function
+  | "ok" | "late" -> Notify.BOk | "err" -> Notify.BErr | "slow" | "hang" -> Notify.BSlow
+  | b -> failwith ("bad behaviour " ^ b)
 
 let cfg_of (k : case) : Notify.cfg =
   let behs = Stdlib.Array.of_list (Stdlib.List.map (fun (_, b) -> beh_of b) k.chans) in
@@ -81,9 +95,15 @@ let model input =
   (* everything that can be delivered while the slow channels are held *)
   y := Notify.run_sched cfg !y (Notify.sweep (nat_of_int (Stdlib.List.length !y.Notify.sy_pool)));
   let pre = chan_logs k !y in
-  y := Notify.run_sched cfg !y (Notify.drain !y);
+  (* the gate opens: slow channels are released, hanging ones never *)
+  let hanging = Stdlib.List.concat (Stdlib.List.mapi (fun i (_, b) -> if b = "hang" then [i] else []) k.chans) in
+  let releases = Stdlib.List.concat (Stdlib.List.mapi (fun i (_, b) -> if b = "slow" then [Notify.Release (nat_of_int i)] else []) k.chans) in
+  if hanging = [] then y := Notify.run_sched cfg !y (Notify.drain !y)
+  else y := Notify.run_sched cfg !y (releases @ Notify.sweep (nat_of_int (Stdlib.List.length !y.Notify.sy_pool)));
   let fin = chan_logs k !y in
-  let leftover = if !y.Notify.sy_pool = [] then "" else "|MODEL-POOL-NOT-EMPTY" in
+  let leftover =
+    if Stdlib.List.for_all (fun t -> Stdlib.List.mem (int_of_nat t.Notify.t_ch) hanging) !y.Notify.sy_pool then ""
+    else "|MODEL-POOL-NOT-EMPTY" in
   let results = Stdlib.List.rev !y.Notify.sy_results in
   let rows = ref (Notify.stored_rows k.h.forbidden s0 k.subs_f) in
   let steps = Stdlib.List.map (fun r ->
@@ -126,7 +146,8 @@ let spec input obs =
   match split_on '|' obs with
   | [steps_s; _rows; pre_s; fin_s; ing_s] when starts_with "pre=" pre_s && starts_with "fin=" fin_s ->
     let steps = if steps_s = "" then [] else split_on ';' steps_s in
-    if Stdlib.List.length steps <> Stdlib.List.length k.subs_f then fail "step-count" "" else begin
+    if ing_s <> "ing=ok" then fail "ingestion-blocked" ing_s
+    else if Stdlib.List.length steps <> Stdlib.List.length k.subs_f then fail "step-count" "" else begin
       try
         if ing_s <> "ing=ok" then raise (Bad "INGESTION");
         (* the rows of the submissions reported as stored, as read back right after each Add *)
@@ -147,6 +168,8 @@ let spec input obs =
         let ids = Stdlib.List.map (fun r -> r.Store.id) rows in
         let chk tag i evs_s =
           let evs = (try parse_events evs_s with Bad d -> raise (Bad ("EVENT channel " ^ string_of_int i ^ " " ^ d))) in
+          (* order is irrelevant for the oracle (multisets); ids ascending makes the quadratic matching linear on runs *)
+          let evs = Stdlib.List.stable_sort (fun a b -> Z.compare (zt_of_n a.Notify.e_id) (zt_of_n b.Notify.e_id)) evs in
           match Notify.check_channel rows evs with
           | Notify.VOk -> ()
           | Notify.VMissing e -> raise (Bad (Printf.sprintf "%sMISSING channel %d %s" tag i (event_str e)))
@@ -158,9 +181,12 @@ let spec input obs =
         let nch = Stdlib.List.length k.chans in
         let fin = if nch = 0 && fin = [""] then [] else fin and pre = if nch = 0 && pre = [""] then [] else pre in
         if Stdlib.List.length fin <> nch || Stdlib.List.length pre <> nch then raise (Bad "CHANNELS");
-        Stdlib.List.iteri (fun i evs -> chk "" i evs) fin;
         Stdlib.List.iteri (fun i (evs, (_, b)) ->
-            if b = "slow" then (if evs <> "" then raise (Bad (Printf.sprintf "NOTHELD channel %d" i)))
+            if b = "hang" then (if evs <> "" then raise (Bad (Printf.sprintf "NOTHELD channel %d" i)))
+            else chk "" i evs)
+          (Stdlib.List.combine fin k.chans);
+        Stdlib.List.iteri (fun i (evs, (_, b)) ->
+            if b = "slow" || b = "hang" then (if evs <> "" then raise (Bad (Printf.sprintf "NOTHELD channel %d" i)))
             else chk "PRE-" i evs)
           (Stdlib.List.combine pre k.chans);
         "OK"
